@@ -532,6 +532,12 @@ def constraints_from_atom(ev, d, rel, vals):
                 constraints_from_atom(ev, ("bin", hop, x_, hi), "notin", frozenset([0]))
     c = as_cmp(d, tr)
     if c is None:
+        # an integer used as a discriminant (`match x & m { 0 => .., _ => .. }`): "true" means non-zero
+        v_int = ev.bv(d)
+        if v_int is not None and v_int.width > 1:
+            zero = ("const", 0, "u%d" % v_int.width)
+            return constraints_from_atom(ev, ("bin", "Ne", d, zero), rel, vals)
+    if c is None:
         # bare boolean value
         v = ev.bv(d)
         if v is not None and v.width == 1 and isinstance(v.bits[0], tuple):
